@@ -1299,7 +1299,7 @@ class Declaration(Node):
                 out.append("[")
                 out.append(todict.print_node(dim))
                 out.append("]")
-        if self.init:
+        if self.init is not None:
             out.append("=")
             out.append(str(self.init))
         return "".join(out)
